@@ -122,6 +122,10 @@ pub fn check(a: &Analysis, obs: &mut Obs) -> Vec<Violation> {
             }
             obs.count("stats_checked", 1);
         }
+        // the complete file: every top-level box is whole and the movie box is there
+        if !a.tree.errors.is_empty() || a.tree.find_top(b"moov").len() != 1 {
+            out.push(v("incomplete-file-after-successful-finish".into(), format!("finish returned Ok but the sink holds an incomplete file: {:?}; top-level {:?}", a.tree.errors.first(), a.tree.top_types())));
+        }
         // exactly one complete file: starts with ftyp (size,type) once
         if a.bytes.len() >= 8 && &a.bytes[4..8] == b"ftyp" {
             let n = a.tree.find_top(b"ftyp").len();
